@@ -37,6 +37,7 @@ InitAll ==
     /\ direct \in (IF Gossip THEN {S \in SUBSET Peers : Cardinality(S) <= MaxDirect} ELSE {{}})
     /\ score \in (IF Gossip THEN [Peers -> ScoreVals] ELSE {[p \in Peers |-> 0]})
     /\ unw \in (IF Gossip THEN {NoUnw} \cup {[NoUnw EXCEPT ![p][1] = IDWTTL] : p \in conn} ELSE {NoUnw})
+    /\ idwcnt = [p \in Peers |-> 0]
     /\ nmsg = 0 /\ fanLost = FALSE /\ last = [kind |-> "none", fails |-> {}] /\ hist = <<>> /\ tags = {}
 
 NextOne == /\ last.kind = "none"
